@@ -1,5 +1,6 @@
 import WV.Model.Client
 import WV.Gen.Skel
+import WV.Gen.Asserts
 
 /-!
 # Skeleton agreement for the composed mailbox client (obligation of C08, C09, C14, C18)
@@ -120,5 +121,40 @@ theorem glue_skeletons :
        "_A.connected", "_B.error"] ∧
     ((Skel.skeleton "RendezvousConnector.ws_close").map (·.2)).filter isCollab =
       ["_N.lost", "_M.lost", "_L.lost", "_A.lost"] := by decide +kernel
+
+/-- **asserts_accounted** — C14 says "no assertion fires".  These are all the `assert` statements of the thirteen
+    modules whose test depends on state (the other `Asserts.typeAsserts` are `isinstance` checks on arguments that the
+    machines pass to each other).  Each is either mirrored by the model as a possible failure, so that the
+    certificate proves it cannot fire, or cannot depend on the environment:
+
+    * `Nameplate.RC_tx_release: self._nameplate`, `Mailbox.RC_tx_open: self._mailbox`, `Mailbox.RC_tx_close: self._mood`,
+      `Receive.S_got_verified_key: self._key`, `Send._encrypt_and_send: self._key`, `RendezvousConnector._tx: self._ws`
+      — mirrored (`Exn.assertion` / `Exn.attribute` in `Client.exec`);
+    * `Input._get_word_completions: self._wordlist` — set by `record_wordlist` on the only way into the state (comment in `exec`);
+    * `Code.do_finish_allocate: code.startswith(nameplate + '-')` — data produced by the Allocator itself (C19);
+    * `Helper.*: threading…ident == self._main_thread` — single-threaded harness and model (blockingCallFromThread is C19's front end);
+    * `decrypt_data / encrypt_data: len(key) == KEY_SIZE` — keys come from `derive_phase_key` (fixed length, C01);
+    * `WSClient.onMessage: not isBinary` — the server sends text frames (conformant server).
+
+    A new, changed or removed state-dependent assertion changes the generated list and this stops checking. -/
+theorem asserts_accounted :
+    Asserts.stateAsserts =
+      ["_nameplate.py:Nameplate.RC_tx_release: self._nameplate",
+       "_mailbox.py:Mailbox.RC_tx_open: self._mailbox",
+       "_mailbox.py:Mailbox.RC_tx_close: self._mood",
+       "_code.py:Code.do_finish_allocate: code.startswith(nameplate + '-')",
+       "_input.py:Input._get_word_completions: self._wordlist",
+       "_input.py:Helper.refresh_nameplates: threading.current_thread().ident == self._main_thread",
+       "_input.py:Helper.get_nameplate_completions: threading.current_thread().ident == self._main_thread",
+       "_input.py:Helper.choose_nameplate: threading.current_thread().ident == self._main_thread",
+       "_input.py:Helper.when_wordlist_is_available: threading.current_thread().ident == self._main_thread",
+       "_input.py:Helper.get_word_completions: threading.current_thread().ident == self._main_thread",
+       "_input.py:Helper.choose_words: threading.current_thread().ident == self._main_thread",
+       "_key.py:decrypt_data: len(key) == SecretBox.KEY_SIZE",
+       "_key.py:encrypt_data: len(key) == SecretBox.KEY_SIZE",
+       "_receive.py:Receive.S_got_verified_key: self._key",
+       "_send.py:Send._encrypt_and_send: self._key",
+       "_rendezvous.py:WSClient.onMessage: not isBinary",
+       "_rendezvous.py:RendezvousConnector._tx: self._ws"] := by decide
 
 end WV.Props.ClientSkel
